@@ -129,6 +129,10 @@ func (u *unit) coqType(t types.Type, pos token.Pos) string {
 		if w == 0 && u.mode == "u63" {
 			u.fail(pos, "type int not supported in u63 mode")
 		}
+		if u.mode == "z" {
+			// width-carrying aliases of Z (Lib/ZOps.v): the proofs read the Go type of a binder from them
+			return fmt.Sprintf("w%d", w)
+		}
 		return "word"
 	}
 	u.fail(pos, "unsupported type %s", t)
@@ -758,7 +762,11 @@ func (c *fctx) kparams(vars []types.Object) (formal, actual string) {
 		n := c.nameOf(v)
 		ns = append(ns, n)
 		if _, isIface := v.Type().Underlying().(*types.Interface); isIface && !isError(v.Type()) {
-			fs = append(fs, "("+n+" : word)")
+			if c.u.mode == "z" {
+				fs = append(fs, "("+n+" : w0)")
+			} else {
+				fs = append(fs, "("+n+" : word)")
+			}
 		} else {
 			fs = append(fs, "("+n+" : "+c.u.coqType(v.Type(), v.Pos())+")")
 		}
